@@ -90,6 +90,14 @@ pub const NUM_TOKENS: &[&str] = &[
     "1.7976931348623157e308", "1e400", "1e-400", "0.1", "0.30000000000000004", "100000000000000000000.5", "1.e3", "1.5e", "1e+", "1e-",
     "3.", "3.e", "0.000001", "0.0000001234", "100000000000000000000000.0", "0.1e-5", "-0.000001", "12345678.9e-20", "12345678901234567890.12345678901234567890e10", "1e2147483648", "1e-2147483649", "0e99999999999", "2e308", "9007199254740993",
     "1e-99999999990", "0e99999999900", "1e+99999999990", "-1e-10000000000", "0.0e-30000000000",
+    "1.5e-2147483647", "-0.5e-2147483647", "1.25e-2147483646", "0.0e-2147483647", "15e-2147483647", "1.5e2147483647", "1.5e-2147483648", "0.5e+2147483647",
+];
+/// Character names of R6RS, R7RS and neighbouring Scheme dialects: a reader
+/// accepts the documented ones and must treat their proper prefixes at the
+/// end of input as cut short.
+pub const CHAR_NAME_WORDS: &[&str] = &[
+    "nul", "null", "alarm", "backspace", "tab", "linefeed", "newline", "vtab", "page", "return", "esc", "escape", "space", "delete",
+    "rubout", "altmode", "bell", "del", "nl", "lf", "cr", "formfeed", "ht", "bs",
 ];
 pub const NEAR_MISS: &[&str] = &[
     "1+", "1-", "1/2", "1.5.6", "0x10", "12ab", "1e3x", ":a", "a:", ":a:", "::", ":", "nil", "nil:", "nilx", "t", "tt", "#nil", "#n", "#t", "#f",
@@ -139,11 +147,26 @@ pub fn synth_token(r: &mut Rng) -> String {
             if r.chance(1, 3) {
                 s.push(*r.pick(&['e', 'E']));
                 s.push_str(*r.pick(&["", "", "-", "+"]));
-                let n = *r.pick(&[0u64, 1, 2, 4, 4, 12]);
-                s.push_str(&chars_from(r, "0123456789", 0, n));
+                if r.chance(1, 5) {
+                    let k = r.below(30) as i64;
+                    s.push_str(&format!("{}", *r.pick(&[2147483648i64 - k, 2147483648 + k])));
+                } else {
+                    let n = *r.pick(&[0u64, 1, 2, 4, 4, 12]);
+                    s.push_str(&chars_from(r, "0123456789", 0, n));
+                }
             }
         }
         1 => s.push_str(&chars_from(r, "abcxyzABC!$%&*/:<=>?@^_~+-.0123456789#|'\u{3bb}\u{e9}\u{2192}", 1, 6)),
+        2 if r.chance(1, 3) => {
+            // a character name, whole, cut short or extended
+            s.push_str("#\\");
+            let w = *r.pick(CHAR_NAME_WORDS);
+            match r.below(4) {
+                0 => s.push_str(&w[..1 + r.below(w.len() as u64) as usize]),
+                1 => { s.push_str(w); s.push_str(&chars_from(r, "aelx1", 1, 2)); }
+                _ => s.push_str(w),
+            }
+        }
         2 => {
             s.push_str("#\\");
             s.push_str(&chars_from(r, "axXsn 0(;\u{3bb}\u{e9}\"\u{7f}\u{1b}", 1, 1));
